@@ -124,8 +124,9 @@ var objectNames = map[string]bool{"bounds": true, "node": true, "way": true, "re
 // reports every element or attribute name outside the vocabulary, non-blank character data
 // where the vocabulary has none, and the object elements in document order.
 //
-// rootAs maps a document-element name to the vocabulary name it is to be read as (used for the
-// one root name the check deliberately does not judge, see notes/C04.md); nil for none.
+// rootAs maps a document-element name to the vocabulary entry (a key of the table) it is to be
+// read as; used for document elements the check deliberately does not judge (a lone Bounds,
+// parts of values marshalled on their own; see notes/C04.md); nil for none.
 func CheckVocabulary(text []byte, rootAs map[string]string) (issues []VocabIssue, objects []ObjectPath, err error) {
 	dec := xml.NewDecoder(bytes.NewReader(text))
 	type frame struct {
@@ -163,9 +164,10 @@ func CheckVocabulary(text []byte, rootAs map[string]string) (issues []VocabIssue
 			actionIdx := -1
 			if len(stack) == 0 {
 				if as, ok := rootAs[name]; ok {
-					name = as
-				}
-				if rootNames[name] {
+					// read as the given vocabulary entry ("bounds", "comments/comment", ...)
+					ent, known = vocab[as]
+					name = as[strings.LastIndexByte(as, '/')+1:]
+				} else if rootNames[name] {
 					ent, known = lookup("", name) // "/osm", "/osmChange" or an object entry
 				}
 			} else {
